@@ -13,9 +13,19 @@ THEOREMS = [f"NumbersModel.Props.C18.{t}" for t in (
     "tokenize_lossless", "tokenize_total", "tokenize_terminates", "quotes_not_split", "dq_literal_wellformed",
     "sq_literal_wellformed", "tables_as_modelled", "dispatch_chars_end_tokens", "error_codes_ok",
     "grammar_accepted", "reader_output_accepted_partial")] + [
-    # the two token-buffer methods as py2lean regenerates them from tokenizer.py on every run
+    # the whole tokenizer as py2lean regenerates it from tokenizer.py on every run: the clauses restated over the translation …
     "NumbersModel.Props.C18.Src.src_assert_empty_token", "NumbersModel.Props.C18.Src.src_save_token",
-    "NumbersModel.Translated.assert_empty_token_eq_model", "NumbersModel.Translated.save_token_eq_model"]
+    "NumbersModel.Props.C18.Src.src_check_scientific_notation", "NumbersModel.Props.C18.Src.src_loop_iteration",
+    "NumbersModel.Props.C18.Src.src_parse_refines", "NumbersModel.Props.C18.Src.src_tokenize_lossless",
+    "NumbersModel.Props.C18.Src.src_tokenize_total", "NumbersModel.Props.C18.Src.src_parse_fuel_suffices",
+    "NumbersModel.Props.C18.Src.src_quotes_not_split", "NumbersModel.Props.C18.Src.src_grammar_accepted"] + [
+    # … and the refinement theorems, one per method (Lemmas/TrTok.lean, Lemmas/TrTokParse.lean)
+    f"NumbersModel.Translated.{t}" for t in (
+        "assert_empty_token_eq_model", "save_token_eq_model", "check_scientific_notation_refines_model",
+        "parse_string_refines_model", "parse_error_refines_model", "parse_operator_refines_model",
+        "parse_opener_refines_model", "parse_closer_refines_model", "parse_separator_refines_model",
+        "make_subexp_func", "get_closer_stacked", "dispatch_spec", "dispatch1_refines", "loop1_step", "loop_refines",
+        "parse_refines_model")]
 TRANSLATED_GROUPS = ("Tok",)
 PARTIAL = {"NumbersModel.Props.C18.reader_output_accepted_partial":
            "clause 4 is proved for every text of the formula grammar G (grammar_accepted: plain operands, string literals, "
@@ -29,8 +39,16 @@ RULE = ("quick: every string of length <= 3 over a 35-symbol alphabet (letters, 
         "separator glyphs incl. typographic ones, both quotes, # $ !), every string of length <= 8 over {\",',a,:,space}, "
         "every string of length <= 6 over {1,9,0,.,E,+,-,newline} (scientific-notation regex), seeded strings of length 4..40 "
         "biased to brackets and literals, every error code with prefixes/suffixes, formulas read from sample fixtures; thorough "
-        "adds length 4 and all fixtures. A case is non-trivial when the input is non-empty; distinct by input text")
+        "adds length 4 and all fixtures. A case is non-trivial when the input is non-empty; distinct by input text. Translated "
+        "definitions: every Tokenizer method on every loop-head state of every string of length <= 3 over the same alphabet plus "
+        "hand-made states (distinct by method and state), the Token constructors on every text of length <= 3 over {(,),{,},a,NL} "
+        "and every type x subtype, and every tokenize request above also through the translated parse")
 ASSUMPTIONS = ["Python `re` is replaced by hand-derived scanners; equivalence exercised exhaustively on short strings",
+               "translated definitions: the semantics py2lean / Py/Trans.lean give to the Python subset (state threading of self.*, "
+               "Token as a structure with the class constants as enum members - checked distinct on the live class on every run -, "
+               "try/except IndexError, the dispatch dict as 'last pair wins', str `in` as substring test); externs: "
+               "Token.make_operand = makeOperand, SN_RE.match = snMatch, STRING_REGEXES[k].match = dqMatch / sqMatch (keys checked), "
+               "re.match('.+\\(|\\)', v) = funcSubexpMatch (pattern literal compared at translation time)",
                "`float()` classification of operands (NUMBER vs RANGE) is not modelled (both reported as one class)"]
 MANIFEST = {
     "text": "Full for clauses 1-3: tokenize_lossless (token texts concatenate to the input, for every string), tokenize_total "
@@ -44,14 +62,22 @@ MANIFEST = {
             "('a-b', Table 1::'a-b', 'a-b':'c+d', alpha:'a-b', 'a-b':alpha); the domain predicate refOK is compared with an "
             "independent Python statement exhaustively on short strings and the real tokenizer is run on everything it admits. "
             "Names containing an apostrophe stay outside (recorded finding). Model tied to the code by exhaustive "
-            "correspondence on short strings (>= 500k inputs per quick run). Tokenizer.assert_empty_token and Tokenizer.save_token are additionally TRANSLATED from tokenizer.py on every run "
-            "(harness/py2lean.py -> Gen/TrTok.lean, self.items / self.token threaded as state variables) and proved to refine the "
-            "model's assertEmpty / saveToken under the representation invariant Rep (Lemmas/TrTok.lean, Props.C18.Src.src_*); run "
-            "against the real methods on harness-made buffers (trdriver).",
+            "correspondence on short strings (>= 500k inputs per quick run). Second tie: the WHOLE tokenizer is additionally TRANSLATED from "
+            "tokenizer.py on every run (harness/py2lean.py -> Gen/TrTok.lean): Token.make_subexp / get_closer / make_separator and "
+            "every Tokenizer method - assert_empty_token, save_token, check_scientific_notation, parse_string, parse_error, "
+            "parse_operator, parse_opener, parse_closer, parse_separator, and parse itself (dispatch dict, while loop on fuel "
+            "len(formula)+1) - with the instance attributes threaded as state variables. Each method is proved to refine the model's "
+            "function under the simulation Pos (formula, offset ~ rest) / Rep (pieces ~ joined token) / StackOK "
+            "(<method>_refines_model), one loop iteration is one model step (loop1_step), the fuel suffices, and "
+            "parse_refines_model: srcTokenize s = tokenize liveCfg s for every string; clauses 1-3 and 4a are restated over the "
+            "translation (Props.C18.Src.src_tokenize_lossless / src_tokenize_total / src_parse_fuel_suffices / src_quotes_not_split / "
+            "src_grammar_accepted). The translated definitions are run against the real code: every method on every loop-head state "
+            "of every string of length <= 3 (+ hand-made states), the Token constructors exhaustively on short texts, and the whole "
+            "parse on every tokenize stream of this check (trdriver).",
     "note": "The two string regexes and SN_RE are replaced by hand-derived scanners (the derivation is in Model/Tokenizer.lean; "
             "the pattern strings are generated and a theorem pins them, so a changed pattern breaks a proof obligation). "
             "float() in make_operand is not modelled.",
-    "technique": "Lean 4 proof (loop invariants by induction over fuel; acceptance by induction over a formula grammar; the two token-buffer methods proved to refine the model from their translation from the Python source) + exhaustive differential correspondence on short strings",
+    "technique": "Lean 4 proof (loop invariants by induction over fuel; acceptance by induction over a formula grammar; every Tokenizer method and the whole parse loop translated from the Python source on every run and proved to refine the model) + exhaustive differential correspondence on short strings",
 }
 
 TYPES = {"OPERAND": "OPERAND", "FUNC": "FUNC", "ARRAY": "ARRAY", "PAREN": "PAREN", "SEP": "SEP",
@@ -282,14 +308,131 @@ def translated_source_stream(ctx: Ctx, Tokenizer):
                                        "definitions translated from the source", req, out)
 
 
+def enc_tok(t) -> str:
+    return f"{enc_text(t.value)}/{TYPES[t.type]}/{SUBS[t.subtype]}"
+
+
+def enc_state(ret: str, offset, items, stack, pieces) -> str:
+    return " ".join([ret, str(offset), "I"] + [enc_tok(t) for t in items] + ["S"] + [enc_tok(t) for t in stack] + ["P"]
+                    + [enc_text(p) for p in pieces])
+
+
+METHODS = (("sci", "check_scientific_notation"), ("string", "parse_string"), ("error", "parse_error"),
+           ("operator", "parse_operator"), ("opener", "parse_opener"), ("closer", "parse_closer"),
+           ("separator", "parse_separator"), ("parse", "parse"))
+
+
+def translated_method_stream(ctx: Ctx, Tokenizer, Token):
+    """every method of the Tokenizer on harness-made instances vs the definitions translated from tokenizer.py: the instance is
+    put into every state the real main loop passes through at the head of an iteration (formula, offset, items, token_stack,
+    token) for every string of length <= 3 over the alphabet, plus hand-made states the loop never reaches; each of the eight
+    methods is then called on a copy of that state — also the ones the dispatcher would not have chosen there — and the
+    returned value / exception class and the whole state it leaves are compared."""
+    import common
+    snaps = []
+
+    class Probe(Tokenizer):
+        def check_scientific_notation(self):
+            snaps.append((self.formula, self.offset, list(self.items), list(self.token_stack), list(self.token)))
+            return super().check_scientific_notation()
+
+    L = 3
+    alpha3 = ALPHA
+    strs = [""] + ["".join(t) for n in (1, 2) for t in itertools.product(ALPHA, repeat=n)]
+    strs += ["".join(t) for t in itertools.product(alpha3, repeat=L)]
+    strs += ["SUM(1E+3,'a':'b')", "Data::'a-b'+1", "{1,2;3}", "f(g(1;2),\"x\"\"y\")≥2", "1.5E-2%", "#REF!+#N/A", "#REF", "(1,2)",
+             "a≥", "1≠", ">=1", "a<>b", "'a''b':'c'"]
+    for s in strs:
+        try:
+            Probe(s)
+        except Exception:  # noqa: BLE001   the snapshots up to the failure are what is wanted
+            pass
+    # states the main loop never reaches: offset at / past the end, closers against every kind of stacked token
+    odd = []
+    for f in ("", "A", ")", "}", ",", ";", "(", "{", "+", "'a'", '"a"', "#REF!", "≥"):
+        for off in range(0, len(f) + 2):
+            for pieces in ([], ["A"], ["1E"], ["T::"], ["a", ":"]):
+                odd.append((f, off, [], [], pieces))
+    for ty in ("FUNC", "ARRAY", "PAREN", "OPERAND", "SEP", "OPERATOR-INFIX"):
+        for st in ("OPEN", "CLOSE", ""):
+            for f in (")", "}", ",", "+"):
+                t = Token("x(", ty, st)
+                odd.append((f, 0, [t], [t], []))
+                odd.append((f, 0, [Token("1", "OPERAND", "NUMBER"), t], [Token("(", "PAREN", "OPEN"), t], []))
+    seen = set()
+    req, out = [], []
+    for formula, offset, items, stack, pieces in snaps + odd:
+        st_enc = " ".join([enc_text(formula), str(offset), str(len(items))] + [enc_tok(t) for t in items] + [str(len(stack))]
+                          + [enc_tok(t) for t in stack] + [str(len(pieces))] + [enc_text(p) for p in pieces])
+        if st_enc in seen:
+            continue
+        seen.add(st_enc)
+        for op, name in METHODS:
+            if op == "parse" and offset > len(formula):
+                continue
+            t = object.__new__(Tokenizer)
+            t.formula, t.offset, t.items, t.token_stack, t.token = formula, offset, list(items), list(stack), list(pieces)
+            req.append(f"tokm {op} {st_enc}")
+            try:
+                r = getattr(t, name)()
+                ret = "-" if r is None else ("1" if r is True else "0" if r is False else str(r))
+                out.append("ok " + enc_state(ret, t.offset, t.items, t.token_stack, t.token))
+                if op != "parse":
+                    ctx.mark(("tokm", op, st_enc))
+                # the property on one method: whatever a parse_* method consumes it adds, unchanged, to items or to the buffer
+                # (with a pending buffer only parse_string / parse_opener are ever reached: the dispatcher saves the token first)
+                if op not in ("sci", "parse") and (not pieces or op in ("string", "opener")):
+                    before = "".join(x.value for x in items) + "".join(pieces)
+                    after = "".join(x.value for x in t.items) + "".join(t.token)
+                    if after != before + formula[offset:offset + r]:
+                        ctx.violation(f"{name}-not-lossless", f"{name} at offset {offset} of {formula!r} (buffer {pieces!r}) reported "
+                                      f"{r} characters consumed but the texts kept went from {before!r} to {after!r}", {"text": formula})
+            except Exception as e:  # noqa: BLE001
+                out.append("err " + exc_name(e))
+    common.translated_only_stream(ctx, "every Tokenizer method on harness-made instances: every loop-head state of every string of "
+                                       f"length <= {L} (+ hand-made states) vs the definitions translated from the source", req, out)
+    # the Token constructors
+    req, out = [], []
+
+    def show(fn):
+        try:
+            return "ok " + enc_tok(fn())
+        except Exception as e:  # noqa: BLE001
+            return "err " + exc_name(e)
+    sub = "(){}a\n"
+    for n in range(0, 4):
+        for tup in itertools.product(sub, repeat=n):
+            v = "".join(tup)
+            for func in (False, True):
+                req.append(f"token subexp {enc_text(v)} {int(func)}")
+                out.append(show(lambda: Token.make_subexp(v, func=func)))
+            req.append(f"token separator {enc_text(v)}")
+            out.append(show(lambda: Token.make_separator(v)))
+    for v in (",", ";", ",;", ";;", "", "a"):
+        req.append(f"token separator {enc_text(v)}")
+        out.append(show(lambda: Token.make_separator(v)))
+    for ty in TYPES:
+        for st in SUBS:
+            if st in ("NUMBER", "RANGE"):
+                continue
+            for v in ("(", "SUM(", "{"):
+                t = Token(v, ty, st)
+                req.append(f"token closer {enc_tok(t)}")
+                out.append(show(t.get_closer))
+    common.translated_only_stream(ctx, "Token.make_subexp / get_closer / make_separator on short texts and every type / subtype "
+                                       "combination vs the definitions translated from the source", req, out, exhaustive=True)
+
+
 def run(ctx: Ctx):
-    from numbers_parser.tokenizer import Tokenizer, TokenizerError
+    from numbers_parser.tokenizer import Token, Tokenizer, TokenizerError
     translated_source_stream(ctx, Tokenizer)
+    translated_method_stream(ctx, Tokenizer, Token)
 
     def batch(name, strs, exhaustive=False):
         req = [f"tok tokenize {enc_text(s)}" for s in strs]
         out = [tok(Tokenizer, TokenizerError, s, ctx) for s in strs]
-        ctx.correspond(name, req, out, exhaustive=exhaustive, nontrivial=lambda r, o: not r.endswith(" -"))
+        # translated=True: the same lines also go through `Tokenizer.parse` as translated from the source (trdriver)
+        ctx.correspond(name, req, out, exhaustive=exhaustive, nontrivial=lambda r, o: not r.endswith(" -"), translated=True)
 
     # corpus of past disagreements / interesting cases first
     corpus = [")", "}", "(", "1E+3", "1.5E-2", "1E\n+3", "'a''b", "'a''", "'a' : 'b'", "'a':'b''", "'a'\u00a0:\t'b'",
